@@ -4,20 +4,52 @@ import H3.Model.Datagram
 namespace H3.Drv.C18
 open H3.Drv H3.Datagram
 
-def parsePattern (s : String) : Option (List Nat) :=
-  if s == "all" then some [] else (s.splitOn ",").mapM (·.toNat?)
+inductive Step where
+  | chunk (k : Nat) | read (k : Nat) | adv (k : Nat)
+
+def parseStep (t : String) : Option Step :=
+  match t.toList with
+  | 'r' :: r => (String.ofList r).toNat?.map .read
+  | 'a' :: r => (String.ofList r).toNat?.map .adv
+  | _ => t.toNat?.map .chunk
+
+def parsePattern (s : String) : Option (List Step) :=
+  if s == "all" then some [] else (s.splitOn ",").mapM parseStep
 
 /-- run the consumption pattern, then drain chunk-by-chunk (fuel = bytes left + 1). -/
 def drain : Nat → Enc → Varint.Bytes
   | 0, _ => []
   | f+1, e => if e.chunk.isEmpty then [] else e.chunk ++ drain f (e.advance e.chunk.length)
 
-def runPattern : Enc → List Nat → Varint.Bytes × Enc
+/-- copy `left` bytes through as many chunks as needed (fuel-bounded) -/
+def readN : Nat → Enc → Nat → Varint.Bytes × Enc
+  | 0, e, _ => ([], e)
+  | f+1, e, left =>
+    if left = 0 then ([], e) else
+    let t := min left e.chunk.length
+    if t = 0 then ([], e) else
+    let (r, e') := readN f (e.advance t) (left - t)
+    (e.chunk.take t ++ r, e')
+
+def runPattern : Enc → List Step → Varint.Bytes × Enc
   | e, [] => ([], e)
-  | e, k :: ks =>
+  | e, .chunk k :: ks =>
     let t := min k e.chunk.length
     let (r, e') := runPattern (e.advance t) ks
     (e.chunk.take t ++ r, e')
+  | e, .read k :: ks =>
+    let (y, e1) := readN (e.remaining + 1) e (min k e.remaining)
+    let (r, e') := runPattern e1 ks
+    (y ++ r, e')
+  | e, .adv k :: ks => runPattern (e.advance (min k e.remaining)) ks
+
+/-- the oracle for a pattern: positions over the wire bytes; `none` when the pattern takes
+    chunk-limited reads after skipping (then only the model has an opinion) -/
+def specPattern (w : Varint.Bytes) : List Step → Option Varint.Bytes
+  | [] => some w
+  | .read k :: ks => (specPattern (w.drop k) ks).map (w.take k ++ ·)
+  | .adv k :: ks => specPattern (w.drop k) ks
+  | .chunk _ :: ks => if ks.all (fun s => match s with | .chunk _ => true | _ => false) then some w else none
 
 def handle : List String → String
   | ["dgram", "enc", sid, ph, pat] =>
@@ -35,7 +67,9 @@ def handle : List String → String
       let sp :=
         if s ≥ 2^62 then "refused" else if s % 4 ≠ 0 then "?" else
           let w := Varint.encode (s / 4) ++ p
-          s!"ok {toHex w} rem0={w.length}"
+          match specPattern w ks with
+          | some y => s!"ok {toHex y} rem0={w.length}"
+          | none => s!"ok * rem0={w.length}"
       m ++ " ## " ++ sp
     | _, _, _ => "bad-op"
   | ["dgram", "dec", h] =>
